@@ -146,3 +146,113 @@ def r10b(ctx):
                 else:
                     ctx.bad(cid, c.module.loc(fn), f"the lowering of {k.qual} ({qual(c, fn)}) never reads its parameter `{p}`: the physical plan cannot depend on it")
     ctx.floor("(class, lowering) pairs", n, 30)
+
+
+# ---------------------------------------------------------------------------------------------
+# R10d left/right mirror pairs
+# ---------------------------------------------------------------------------------------------
+import re as _re
+
+
+def _swap_lr(t):
+    return t.replace("left", "\0").replace("right", "left").replace("\0", "right")
+
+
+def _side_only(x, y):
+    """do the two tokens differ only in naming the other side (left_suffix vs right_suffix)?"""
+    strip = lambda t: t.replace("left", "").replace("right", "")
+    return x != y and strip(x) == strip(y) and ("left" in x or "right" in x)
+
+
+def _tokens(t):
+    return _re.findall(r"\w+|\S", t)
+
+
+def _skeleton(node):
+    from sa.rules.util import clone
+
+    n = clone(node)
+    for x in ast.walk(n):
+        if isinstance(x, ast.Name):
+            x.id = "_"
+        elif isinstance(x, ast.Attribute):
+            x.attr = "_"
+        elif isinstance(x, ast.Constant) and isinstance(x.value, str):
+            x.value = "_"
+        elif isinstance(x, ast.keyword) and x.arg:
+            x.arg = "_"
+    return ast.dump(n)
+
+
+# functions whose adjacent left/right statement pairs were confirmed to be exact mirror images on the reference tree
+MIRROR_FUNCTIONS = {
+    "_collection.merge",
+    "_collection.merge_asof",
+    "_expr._get_predicate_components",
+    "_expr.Binop._simplify_up",
+    "_expr.Binop._divisions",
+    "_merge.Merge._meta",
+    "_merge.Merge._divisions",
+    "_merge.Merge._lower",
+    "_merge.Merge._simplify_up",
+    "_merge.HashJoinP2P._layer",
+    "_merge.BroadcastJoin._layer",
+    "io.parquet._DNF.extract_pq_filters",
+}
+
+
+@rule(
+    "R10d",
+    ["C10", "C03", "C02"],
+    """SIDE SYMMETRY: binary operations treat their two inputs by mirrored code - adjacent statement pairs (and the two arms of
+    an if/else on `broadcast_side == 'left'`) that are identical up to swapping left <-> right. In the functions where
+    such pairs were confirmed exact mirror images, a pair with identical syntactic skeleton whose text differs from its
+    mirror in at most three tokens is a broken mirror (one side uses the other side's suffix / key / frame): the two
+    inputs are no longer treated alike.""",
+)
+def r10d(ctx):
+    model = ctx.model
+    exact = 0
+    for mod, cls, fn in model.all_functions():
+        fq = qual(cls, fn) if cls is not None else f"{mod.name.split('.', 1)[-1]}.{fn.name}"
+        if fq not in MIRROR_FUNCTIONS:
+            continue
+        pairs = []
+        for node in ast.walk(fn):
+            for attr in ("body", "orelse"):
+                blk = getattr(node, attr, None)
+                if isinstance(blk, list):
+                    for s1, s2 in zip(blk, blk[1:]):
+                        if isinstance(s1, ast.stmt) and isinstance(s2, ast.stmt):
+                            pairs.append((s1, s2, "adjacent"))
+            if isinstance(node, ast.If) and node.orelse and ("'left'" in ast.unparse(node.test) or "'right'" in ast.unparse(node.test)):
+                if len(node.body) == len(node.orelse):
+                    for s1, s2 in zip(node.body, node.orelse):
+                        pairs.append((s1, s2, "if/else arm"))
+        k = 0
+        for s1, s2, how in pairs:
+            a, b = ast.unparse(s1), ast.unparse(s2)
+            if how == "if/else arm" and a == b and ("left" in a or "right" in a) and _swap_lr(a) != a:
+                cid = f"{fq}:mirror#{k}"
+                k += 1
+                ctx.bad(cid, mod.loc(s2), f"both arms of the side test execute `{a[:100]}`: the arm for the other side must use the other side's operand")
+                continue
+            if len(a) < 20 or a == b or ("left" not in a and "right" not in a):
+                continue
+            if _swap_lr(a) == a:
+                continue
+            if _skeleton(s1) != _skeleton(s2):
+                continue
+            ta, tb = _tokens(_swap_lr(a)), _tokens(b)
+            if len(ta) != len(tb):
+                continue
+            diff = [(x, y) for x, y in zip(ta, tb) if x != y]
+            cid = f"{fq}:mirror#{k}"
+            k += 1
+            if not diff:
+                exact += 1
+                ctx.ok(cid, mod.loc(s1), f"{how}: exact left/right mirror")
+            elif len(diff) <= 3 and all(_side_only(x, y) for x, y in diff):
+                ctx.bad(cid, mod.loc(s2), f"{how} statements are left/right mirror images except for {diff}: `{b[:110]}` does to one side what its sibling does to the other side with a different {', '.join(sorted({y for _, y in diff}))} - the two inputs are not treated symmetrically")
+            # larger differences: not a mirror pair at all
+    ctx.floor("exact left/right mirror pairs", exact, 16)
